@@ -28,6 +28,11 @@ type c19Case struct {
 var c19Alphabet = []string{"mgrTick", "enable2", "enable3", "disable2", "disableAll", "lag2:unknown", "lag2:low", "lag2:mid", "lag2:high",
 	"lag3:high", "lag3:low", "status2:enabled", "ghost", "h2Dies", "h2Starts", "fileTo2", "fileFrom1", "adv5", "h2SettingsFail", "h2SettingsOK"}
 
+// events of the stale-snapshot searches: the hosts' health loops and the manager loop are separate
+// processes, so the records the Syncer classifies may have been READ before the manager's previous
+// iteration changed the server and PUBLISHED after it
+var c19StaleAlphabet = []string{"mgrTickOnly", "health", "healthRead", "healthPublish", "lag2:low", "lag2:high", "lag3:high", "enable3", "mgrTick"}
+
 func c19Run(r *vt.Run, c c19Case) (canon string) {
 	r.Eval()
 	spec := Spec{HA: []string{"h1", "h2", "h3"}, CustomLag: true, Conf: map[string]string{"failover": "false", "slave_catch_up_timeout": "6s",
@@ -122,9 +127,58 @@ func c19Run(r *vt.Run, c c19Case) (canon string) {
 			}
 		})
 		lagVal := map[string]*float64{"unknown": nil, "low": fp(30), "mid": fp(90), "high": fp(200)}
+		deferred := map[string]string{} // health records read but not yet published
 		for step, ev := range c.Hist {
 			np := len(w.Panics)
 			switch {
+			case ev == "health":
+				h.HealthAll()
+			case ev == "healthRead":
+				// every host's health loop reads its server now; the records reach ZooKeeper at healthPublish
+				old := map[string]string{}
+				for _, x := range spec.HA {
+					old[x], _ = w.ZK.Get(vns + "/health/" + x)
+				}
+				h.HealthAll()
+				for _, x := range spec.HA {
+					deferred[x], _ = w.ZK.Get(vns + "/health/" + x)
+					if old[x] != "" {
+						w.ZK.Put(vns+"/health/"+x, old[x])
+					}
+				}
+			case ev == "healthPublish":
+				for x, rec := range deferred {
+					if rec != "" && w.ZK.Exists(vns+"/health/"+x) {
+						w.ZK.Put(vns+"/health/"+x, rec)
+					}
+				}
+				deferred = map[string]string{}
+			case ev == "mgrTickOnly":
+				// a manager iteration on whatever records are published (no refresh): only the invariants
+				// that do not depend on the records being current are evaluated
+				firstFreezeSeen = false
+				speedup = false
+				pending := w.ZK.Exists(vns + "/switch")
+				h.Tick(mgr)
+				m := w.Servers[h.MasterKey()]
+				if !pending && !w.ZK.Exists(vns+"/switch") && mgr.state == stateManager && m != nil && m.Up && h.MasterKey() == "h1" {
+					r.Count("completed_syncs_on_stale_records")
+					var rel []string
+					for _, x := range spec.HA {
+						if x != h.MasterKey() && w.Servers[x].Up && relaxed(x) && (registered(x) || relaxedByMysync[x]) {
+							rel = append(rel, x)
+						}
+					}
+					if len(rel) > 1 {
+						violate("1-at-most-one-relaxed-replica", fmt.Sprintf("after a completed sync %v run with relaxed durability settings", rel))
+					}
+					// (3') nothing mysync relaxed is left relaxed outside the registry
+					for _, x := range spec.HA {
+						if x != h.MasterKey() && w.Servers[x].Up && relaxed(x) && relaxedByMysync[x] && !registered(x) {
+							violate("3-dropped-only-after-settings-restored", fmt.Sprintf("%s runs with the relaxed settings mysync gave it (flush=%d sync_binlog=%d) and is not in the registry after the sync", x, w.Servers[x].FlushLog, w.Servers[x].SyncBinlog))
+						}
+					}
+				}
 			case ev == "mgrTick":
 				h.HealthAll()
 				pending := w.ZK.Exists(vns + "/switch")
@@ -303,7 +357,9 @@ func checkC19(r *vt.Run) {
 		if order == 1 && r.Quick() {
 			d = depth - 1
 		}
-		vBFS(r, fmt.Sprintf("init%d|", order), c19Alphabet, d, enabled, runner)
+		if order == 0 || r.Thorough() {
+			vBFS(r, fmt.Sprintf("init%d|", order), c19Alphabet, d, enabled, runner)
+		}
 		// from a state in which h2 is being optimised (lagging, registered, relaxed by the syncer)
 		prefix := []string{"lag2:high", "enable2", "mgrTick"}
 		vBFS(r, fmt.Sprintf("optimising%d|", order), c19Alphabet, d, enabled, func(hist []string) string {
@@ -315,5 +371,33 @@ func checkC19(r *vt.Run) {
 			return runner(append(append([]string(nil), prefix2...), hist...))
 		})
 	}
-	r.Bound("initial_states", "converged; h2 lagging, registered and relaxed by the syncer; additionally h3 lagging and registered behind it")
+	// stale-snapshot searches (child order 0): from "h2 registered, records say lagging with the
+	// master's settings, a fresher read (lag converged, still the master's settings) waits to be
+	// published, and the manager has just relaxed h2 on the older records"
+	enStale := func(hist []string, ev string) bool {
+		n := 0
+		for _, x := range hist {
+			if x == ev {
+				n++
+			}
+		}
+		return n < 2
+	}
+	prefixS := []string{"lag2:high", "enable2", "health", "lag2:low", "healthRead", "mgrTickOnly"}
+	ds := 3
+	if r.Thorough() {
+		ds = 5
+	}
+	vBFS(r, "stale|", c19StaleAlphabet, ds, enStale, func(hist []string) string {
+		c := c19Case{0, append(append([]string(nil), prefixS...), hist...)}
+		r.Crumb(c)
+		return "stale|" + c19Run(r, c)
+	})
+	vBFS(r, "stale0|", c19StaleAlphabet, ds+1, enStale, func(hist []string) string {
+		c := c19Case{0, append([]string{"lag2:high", "enable2"}, hist...)}
+		r.Crumb(c)
+		return "stale0|" + c19Run(r, c)
+	})
+	r.Bound("stale_snapshot_search_depth", ds)
+	r.Bound("initial_states", "converged; h2 lagging, registered and relaxed by the syncer; additionally h3 lagging and registered behind it; stale-record states")
 }
